@@ -136,6 +136,7 @@ def _worker(args):
         "trivial_sample": None,
         "skipped_budget": 0,
         "generated": 0,
+        "excluded_samples": [],
     }
     if budget <= 0:
         return _pack(stats)
@@ -154,6 +155,9 @@ def _worker(args):
             return
         if res.excluded:
             stats["excluded"][res.excluded] = stats["excluded"].get(res.excluded, 0) + 1
+            if res.excluded == "nonterminating" and len(stats["excluded_samples"]) < 2:
+                # keep the case: a call that exceeded the protective work bound is C13's business
+                stats["excluded_samples"].append(case)
             for k, v in res.counters.items():
                 stats["counters"][k] = stats["counters"].get(k, 0) + v
             return
@@ -410,6 +414,7 @@ def run_check(prop_id, tier, seed, replay=None):
         "skipped_budget": 0,
         "generated": 0,
         "bucket_counts": {},
+        "excluded_samples": [],
     }
 
     def absorb(res, case, origin):
@@ -491,6 +496,9 @@ def run_check(prop_id, tier, seed, replay=None):
             agg["counters"][k] = agg["counters"].get(k, 0) + v
         for k, v in st_.get("bucket_counts", {}).items():
             agg["bucket_counts"][k] = agg["bucket_counts"].get(k, 0) + v
+        for s in st_.get("excluded_samples", []):
+            if len(agg["excluded_samples"]) < 4:
+                agg["excluded_samples"].append(s)
         for s in st_["samples"]:
             if len(agg["samples"]) < 4:
                 agg["samples"].append(s)
@@ -594,6 +602,7 @@ def run_check(prop_id, tier, seed, replay=None):
             "skipped_after_soft_deadline": agg["skipped_budget"],
             "class_histogram": dict(sorted(agg["labels"].items())),
             "excluded": agg["excluded"],
+            "excluded_nonterminating_samples": agg["excluded_samples"],
             "counters": dict(sorted(agg["counters"].items())),
             "violation_buckets": agg["bucket_counts"],
             "known_finding_hits": known_hits,
